@@ -183,3 +183,7 @@ reg('C01', 'bounds', 'rule_cursor_forward')       # a cursor that moves back re-
 reg('C04', 'ropeinv', 'rule_last_piece')          # get_generated_source_info asks rope.ends_with('\n'): the end position a child reports
 reg('C10', 'ropeinv', 'rule_last_piece')          # the cached replay measures the cached rope
 reg('C13', 'ropeinv', 'rule_last_piece')          # wrappers that replay a rope report the same end as the wrapped source
+reg('C13', 'streams', 'rule_name_sibling')        # an empty insertion inside a named chunk must not change which characters carry the name
+reg('C06', 'streams', 'rule_name_sibling')        # composites preserve the name a child attributes to its text
+reg('C12', 'codec', 'rule_vlq_field_reset')       # redundant continuation digits are legal VLQ: a field ends with the digit state cleared
+reg('C08', 'codec', 'rule_vlq_field_reset')       # the attached map is read by this decoder
